@@ -566,10 +566,21 @@ func evalJSON(c *mc.Ctx, es *envSpec, doc string, n *node) (string, []problem) {
 		}
 		return "json:ok:equivalent", nil
 	}
-	if fw, err := decodeFirstWins(doc); err == nil && !reflect.DeepEqual(fw, exp) {
-		var fwDiffs []string
-		if jsonDiff(fw, got, &fwDiffs); len(fwDiffs) == 0 {
-			return "json:not-equivalent", []problem{{"json:duplicate-key-first-wins", fmt.Sprintf("%s: json(parse_json(doc)) = %s keeps the first of the duplicate keys, not the last", id, outText.Native())}}
+	// differences with a named cause of their own (default key, lone surrogates) keep their signature;
+	// the remaining, generic ones are attributed to "the first duplicate won" when that reading of the
+	// document explains the output completely
+	generic := 0
+	for _, d := range diffs {
+		if d != "default-key-dropped" && !strings.HasPrefix(d, "lone-surrogate-") {
+			generic++
+		}
+	}
+	if generic > 0 {
+		if fw, err := decodeFirstWins(doc); err == nil && !reflect.DeepEqual(fw, exp) {
+			var fwDiffs []string
+			if jsonDiff(fw, got, &fwDiffs); len(fwDiffs) == 0 {
+				return "json:not-equivalent", []problem{{"json:duplicate-key-first-wins", fmt.Sprintf("%s: json(parse_json(doc)) = %s keeps the first of the duplicate keys, not the last", id, outText.Native())}}
+			}
 		}
 	}
 	var ps []problem
